@@ -107,7 +107,7 @@ PROPS = {
         'rule': 'worlds with 1-3 Services (selectors from workload labels, named/numbered ports and targetPorts), 0-2 Ingresses (default backend, rule paths; by number / name / '
                 'targetPort-only numbers / missing services) and 0-2 Routes (to, alternateBackends, port.targetPort number/name/none); K-diff against the model of ingress_analyzer.go; '
                 'P against the Lean specification of the ingress-controller lines and of the blocked warnings',
-        'assumptions': ['service port numbers and names unique within a Service'],
+        'assumptions': ['service port numbers and names unique within a Service', 'the input does not itself define the namespace ingress-controller-ns (the property speaks of a namespace unknown to the input; with a Namespace manifest of that name the tool evaluates the fake pod as a member of the real namespace, with its labels)'],
     },
     'C12': {
         'lean': ['Netpol.Properties.C12', 'Netpol.Tie.C12'],
